@@ -1,10 +1,934 @@
 /-
-Proofs/Preload.lean — helper lemmas for property C15 (heap frame lemmas, Impl = Spec refinement).
+Proofs/Preload.lean — helper lemmas for property C15.
+
+* frame lemmas of the heap (`alloc`, `write`, `copy`);
+* `Good p f v`: from every heap in which the arrays of the Preloads object `p` lie below the heap
+  size, accessor `f` only *extends* the heap (every old cell — in particular every preloaded array —
+  keeps its contents), returns a live reference, and the cell it returns holds `v (contents h p)`;
+  `Fresh p f`: the reference returned was allocated by `f` itself;
+* every accessor of `Model.Preload.Impl` under `Policy.repaired` is `Good` for the corresponding
+  `Model.Preload.Spec` value (the refinement Impl = Spec), hence `readAll`, `inversion`, `history`.
 -/
 import Model.Preload
 
 open Model Model.Preload
 
 namespace Model.Preload
+
+variable {α : Type}
+
+/-! ## heap -/
+namespace Heap
+
+/-- `h'` extends `h`: at least as many cells, every cell of `h` unchanged -/
+def Extends (h h' : Heap α) : Prop := h.size ≤ h'.size ∧ ∀ r, r < h.size → h'.read r = h.read r
+
+theorem Extends.refl (h : Heap α) : Extends h h := ⟨Nat.le_refl _, fun _ _ => rfl⟩
+
+theorem Extends.trans {a b c : Heap α} (h1 : Extends a b) (h2 : Extends b c) : Extends a c :=
+  ⟨Nat.le_trans h1.1 h2.1, fun r hr => by
+    rw [h2.2 r (Nat.lt_of_lt_of_le hr h1.1), h1.2 r hr]⟩
+
+@[simp] theorem size_alloc (h : Heap α) (b : List α) : (h.alloc b).1.size = h.size + 1 := by
+  simp [alloc, size]
+
+@[simp] theorem alloc_ref (h : Heap α) (b : List α) : (h.alloc b).2 = h.size := rfl
+
+@[simp] theorem read_alloc_new (h : Heap α) (b : List α) : (h.alloc b).1.read h.size = b := by
+  simp [alloc, read, size]
+
+theorem read_alloc_old (h : Heap α) (b : List α) (r : Ref) (hr : r < h.size) :
+    (h.alloc b).1.read r = h.read r := by
+  simp only [alloc, read, size, List.getD_eq_getElem?_getD] at *
+  rw [List.getElem?_append_left hr]
+
+theorem ext_alloc (h : Heap α) (b : List α) : Extends h (h.alloc b).1 :=
+  ⟨by simp, fun r hr => read_alloc_old h b r hr⟩
+
+@[simp] theorem size_write (h : Heap α) (r : Ref) (b : List α) : (h.write r b).size = h.size := by
+  simp [write, size]
+
+theorem read_write_same (h : Heap α) (r : Ref) (b : List α) (hr : r < h.size) :
+    (h.write r b).read r = b := by
+  simp only [write, read, size, List.getD_eq_getElem?_getD] at *
+  simp [hr]
+
+theorem read_write_ne (h : Heap α) (r r' : Ref) (b : List α) (hne : r' ≠ r) :
+    (h.write r b).read r' = h.read r' := by
+  simp only [write, read, List.getD_eq_getElem?_getD]
+  rw [List.getElem?_set_ne (Ne.symm hne)]
+
+/-- writing into a cell that `h0` does not have keeps `h0`'s cells -/
+theorem ext_write {h0 h : Heap α} (hx : Extends h0 h) (r : Ref) (b : List α) (hr : h0.size ≤ r) :
+    Extends h0 (h.write r b) :=
+  ⟨by simpa using hx.1, fun r' hr' => by
+    rw [read_write_ne h r r' b (Nat.ne_of_lt (by omega)), hx.2 r' hr']⟩
+
+@[simp] theorem size_copy (h : Heap α) (r : Ref) : (h.copy r).1.size = h.size + 1 := by
+  simp [copy]
+
+@[simp] theorem copy_ref (h : Heap α) (r : Ref) : (h.copy r).2 = h.size := rfl
+
+@[simp] theorem read_copy_new (h : Heap α) (r : Ref) : (h.copy r).1.read h.size = h.read r := by
+  simp [copy]
+
+theorem ext_copy (h : Heap α) (r : Ref) : Extends h (h.copy r).1 := ext_alloc h _
+
+end Heap
+
+open Heap
+
+/-! ## Preloads: below / contents -/
+
+theorem Preloads.Below.mono {p : Preloads α} {n m : Nat} (hp : p.Below n) (hnm : n ≤ m) :
+    p.Below m := by
+  unfold Preloads.Below at *
+  simp only [List.all_eq_true] at *
+  intro o ho
+  have := hp o ho
+  cases o with
+  | none => simp
+  | some r => simp at this ⊢; omega
+
+/-- membership form of `Below` -/
+theorem Preloads.Below.lt {p : Preloads α} {n : Nat} (hp : p.Below n) {r : Ref}
+    (hr : some r ∈ p.arrays) : r < n := by
+  unfold Preloads.Below at hp
+  simp only [List.all_eq_true] at hp
+  simpa using hp (some r) hr
+
+theorem contents_ext {h h' : Heap α} {p : Preloads α} (hx : Extends h h') (hp : p.Below h.size) :
+    contents h' p = contents h p := by
+  have e : ∀ r, some r ∈ p.arrays → h'.read r = h.read r := fun r hr => hx.2 r (hp.lt hr)
+  unfold contents SlotsOf.map
+  have a1 : p.wTilde.map h'.read = p.wTilde.map h.read := by
+    cases hq : p.wTilde with
+    | none => rfl
+    | some r => simp [e r (by simp [SlotsOf.arrays, hq])]
+  have a2 : p.operatedMappingMatrix.map h'.read = p.operatedMappingMatrix.map h.read := by
+    cases hq : p.operatedMappingMatrix with
+    | none => rfl
+    | some r => simp [e r (by simp [SlotsOf.arrays, hq])]
+  have a3 : p.linearFuncDict.map h'.read = p.linearFuncDict.map h.read := by
+    cases hq : p.linearFuncDict with
+    | none => rfl
+    | some r => simp [e r (by simp [SlotsOf.arrays, hq])]
+  have a4 : p.dataLinearFuncDict.map h'.read = p.dataLinearFuncDict.map h.read := by
+    cases hq : p.dataLinearFuncDict with
+    | none => rfl
+    | some r => simp [e r (by simp [SlotsOf.arrays, hq])]
+  have a5 : p.mapperOperatedDict.map h'.read = p.mapperOperatedDict.map h.read := by
+    cases hq : p.mapperOperatedDict with
+    | none => rfl
+    | some r => simp [e r (by simp [SlotsOf.arrays, hq])]
+  have a6 : p.curvatureMatrix.map h'.read = p.curvatureMatrix.map h.read := by
+    cases hq : p.curvatureMatrix with
+    | none => rfl
+    | some r => simp [e r (by simp [SlotsOf.arrays, hq])]
+  have a7 : p.dataVectorMapper.map h'.read = p.dataVectorMapper.map h.read := by
+    cases hq : p.dataVectorMapper with
+    | none => rfl
+    | some r => simp [e r (by simp [SlotsOf.arrays, hq])]
+  have a8 : p.curvatureMatrixMapperDiag.map h'.read = p.curvatureMatrixMapperDiag.map h.read := by
+    cases hq : p.curvatureMatrixMapperDiag with
+    | none => rfl
+    | some r => simp [e r (by simp [SlotsOf.arrays, hq])]
+  have a9 : p.regularizationMatrix.map h'.read = p.regularizationMatrix.map h.read := by
+    cases hq : p.regularizationMatrix with
+    | none => rfl
+    | some r => simp [e r (by simp [SlotsOf.arrays, hq])]
+  rw [a1, a2, a3, a4, a5, a6, a7, a8, a9]
+
+/-! ## accessor specifications -/
+
+/-- `f` extends the heap, returns a live reference, and the cell returned holds `v` of the preload
+    contents -/
+def Good (p : Preloads α) (f : Impl.Acc α) (v : Slots α → List α) : Prop :=
+  ∀ h, p.Below h.size →
+    Extends h (f h).1 ∧ (f h).2 < (f h).1.size ∧ (f h).1.read (f h).2 = v (contents h p)
+
+/-- the array returned was allocated by `f` itself (it is not a preloaded array, nor any older one) -/
+def Fresh (p : Preloads α) (f : Impl.Acc α) : Prop := ∀ h, p.Below h.size → h.size ≤ (f h).2
+
+theorem Good.congr {p : Preloads α} {f : Impl.Acc α} {v v' : Slots α → List α}
+    (hg : Good p f v) (hv : ∀ s, v s = v' s) : Good p f v' := by
+  intro h hp
+  obtain ⟨a, b, c⟩ := hg h hp
+  exact ⟨a, b, by rw [c, hv]⟩
+
+/-- allocation of a value computed from the heap's preload contents -/
+theorem good_alloc {p : Preloads α} (g : Heap α → List α) (v : Slots α → List α)
+    (hg : ∀ h, p.Below h.size → g h = v (contents h p)) :
+    Good p (fun h => h.alloc (g h)) v ∧ Fresh p (fun h => h.alloc (g h)) := by
+  refine ⟨fun h hp => ⟨ext_alloc h _, by simp, ?_⟩, fun h _ => by simp⟩
+  simp [hg h hp]
+
+/-- `if preloads.slot is not None: return preloads.slot` -/
+theorem good_slotOr {p : Preloads α} (slot : Option Ref) (sv : Slots α → Option (List α))
+    (hmem : ∀ r, slot = some r → some r ∈ p.arrays)
+    (hsv : ∀ h, sv (contents h p) = slot.map h.read)
+    {compute : Impl.Acc α} {vc : Slots α → List α} (hc : Good p compute vc) :
+    Good p (Impl.slotOr slot compute) (fun s => (sv s).getD (vc s)) := by
+  intro h hp
+  unfold Impl.slotOr
+  cases hs : slot with
+  | none =>
+    have := hc h hp
+    simpa [hsv, hs] using this
+  | some r =>
+    have hr : r < h.size := hp.lt (hmem r hs)
+    exact ⟨Extends.refl h, hr, by simp [hsv, hs]⟩
+
+/-- `return copy.copy(preloads.slot)` -/
+theorem good_slotCopyOr {p : Preloads α} (slot : Option Ref) (sv : Slots α → Option (List α))
+    (hsv : ∀ h, sv (contents h p) = slot.map h.read)
+    {compute : Impl.Acc α} {vc : Slots α → List α} (hc : Good p compute vc) (hf : Fresh p compute) :
+    Good p (Impl.slotCopyOr true slot compute) (fun s => (sv s).getD (vc s))
+    ∧ Fresh p (Impl.slotCopyOr true slot compute) := by
+  constructor
+  · intro h hp
+    unfold Impl.slotCopyOr
+    cases hs : slot with
+    | none =>
+      have := hc h hp
+      simpa [hsv, hs] using this
+    | some r =>
+      refine ⟨ext_copy h r, by simp, ?_⟩
+      simp [hsv, hs]
+  · intro h hp
+    unfold Impl.slotCopyOr
+    cases hs : slot with
+    | none => simpa using hf h hp
+    | some r => simp
+
+/-- run `g`, then write into the (fresh) array it returned -/
+theorem good_thenWrite {p : Preloads α} {g : Impl.Acc α} {vg : Slots α → List α}
+    (hg : Good p g vg) (hf : Fresh p g) (f : Heap α → List α → List α)
+    (vf : Slots α → List α → List α)
+    (hfv : ∀ h h', p.Below h.size → Extends h h' → ∀ b, f h' b = vf (contents h p) b) :
+    Good p (Impl.thenWrite g f) (fun s => vf s (vg s)) ∧ Fresh p (Impl.thenWrite g f) := by
+  constructor
+  · intro h hp
+    obtain ⟨hx, hlt, hrd⟩ := hg h hp
+    have hfr := hf h hp
+    unfold Impl.thenWrite
+    refine ⟨ext_write hx _ _ hfr, by simpa using hlt, ?_⟩
+    simp only []
+    rw [read_write_same _ _ _ hlt, hfv h _ hp hx, hrd]
+  · intro h hp
+    unfold Impl.thenWrite
+    exact hf h hp
+
+/-- run `g1`, then `g2`, then allocate `k` of the two arrays -/
+theorem good_alloc2 {p : Preloads α} {g1 g2 : Impl.Acc α} {v1 v2 : Slots α → List α}
+    (h1 : Good p g1 v1) (h2 : Good p g2 v2) (k : List α → List α → List α) :
+    Good p (fun h => ((g2 (g1 h).1).1.alloc
+        (k ((g2 (g1 h).1).1.read (g1 h).2) ((g2 (g1 h).1).1.read (g2 (g1 h).1).2))))
+      (fun s => k (v1 s) (v2 s))
+    ∧ Fresh p (fun h => ((g2 (g1 h).1).1.alloc
+        (k ((g2 (g1 h).1).1.read (g1 h).2) ((g2 (g1 h).1).1.read (g2 (g1 h).1).2)))) := by
+  constructor
+  · intro h hp
+    obtain ⟨x1, l1, r1⟩ := h1 h hp
+    have hp1 : p.Below (g1 h).1.size := hp.mono x1.1
+    obtain ⟨x2, l2, r2⟩ := h2 _ hp1
+    refine ⟨(x1.trans x2).trans (ext_alloc _ _), by simp, ?_⟩
+    simp only [alloc_ref, read_alloc_new]
+    rw [x2.2 _ l1, r1, r2, contents_ext x1 hp]
+  · intro h hp
+    obtain ⟨x1, _, _⟩ := h1 h hp
+    obtain ⟨x2, _, _⟩ := h2 _ (hp.mono x1.1)
+    simp only [alloc_ref]
+    exact Nat.le_trans x1.1 x2.1
+
+/-- run `g1` (fresh result), then `g2`, then write `k` of the two arrays INTO the first -/
+theorem good_write2 {p : Preloads α} {g1 g2 : Impl.Acc α} {v1 v2 : Slots α → List α}
+    (h1 : Good p g1 v1) (f1 : Fresh p g1) (h2 : Good p g2 v2) (k : List α → List α → List α) :
+    Good p (fun h => (((g2 (g1 h).1).1.write (g1 h).2
+        (k ((g2 (g1 h).1).1.read (g1 h).2) ((g2 (g1 h).1).1.read (g2 (g1 h).1).2))), (g1 h).2))
+      (fun s => k (v1 s) (v2 s))
+    ∧ Fresh p (fun h => (((g2 (g1 h).1).1.write (g1 h).2
+        (k ((g2 (g1 h).1).1.read (g1 h).2) ((g2 (g1 h).1).1.read (g2 (g1 h).1).2))), (g1 h).2)) := by
+  constructor
+  · intro h hp
+    obtain ⟨x1, l1, r1⟩ := h1 h hp
+    have hp1 : p.Below (g1 h).1.size := hp.mono x1.1
+    obtain ⟨x2, l2, r2⟩ := h2 _ hp1
+    have l1' : (g1 h).2 < (g2 (g1 h).1).1.size := Nat.lt_of_lt_of_le l1 x2.1
+    refine ⟨ext_write (x1.trans x2) _ _ (f1 h hp), by simpa using l1', ?_⟩
+    simp only []
+    rw [read_write_same _ _ _ l1', x2.2 _ l1, r1, r2, contents_ext x1 hp]
+  · intro h hp
+    exact f1 h hp
+
+/-- run `g`, then allocate `k` of the array (and of the heap's preload contents) -/
+theorem good_alloc1 {p : Preloads α} {g : Impl.Acc α} {vg : Slots α → List α}
+    (hg : Good p g vg) (k : Heap α → List α → List α) (vk : Slots α → List α → List α)
+    (hk : ∀ h h', p.Below h.size → Extends h h' → ∀ b, k h' b = vk (contents h p) b) :
+    Good p (fun h => (g h).1.alloc (k (g h).1 ((g h).1.read (g h).2))) (fun s => vk s (vg s))
+    ∧ Fresh p (fun h => (g h).1.alloc (k (g h).1 ((g h).1.read (g h).2))) := by
+  constructor
+  · intro h hp
+    obtain ⟨x, l, r⟩ := hg h hp
+    refine ⟨x.trans (ext_alloc _ _), by simp, ?_⟩
+    simp only [alloc_ref, read_alloc_new]
+    rw [hk h _ hp x, r]
+  · intro h hp
+    obtain ⟨x, _, _⟩ := hg h hp
+    simp only [alloc_ref]
+    exact x.1
+
+/-! ## the accessors of the repaired code refine the Spec values -/
+section refinement
+set_option linter.unusedSectionVars false
+variable [Add α] [OfNat α 0]
+variable (c : Cfg α) (E : Ext α) (p : Preloads α)
+
+theorem lfVal_eq {h h' : Heap α} (hp : p.Below h.size) (hx : Extends h h') :
+    Impl.lfVal E p h' = Spec.lf E (contents h p) := by
+  unfold Impl.lfVal Spec.lf contents SlotsOf.map
+  cases hq : p.linearFuncDict with
+  | none => rfl
+  | some r => simp [hx.2 r (hp.lt (by simp [SlotsOf.arrays, hq]))]
+
+theorem wtVal_eq {h h' : Heap α} (hp : p.Below h.size) (hx : Extends h h') :
+    Impl.wtVal E p h' = Spec.wt E (contents h p) := by
+  unfold Impl.wtVal Spec.wt contents SlotsOf.map
+  cases hq : p.wTilde with
+  | none => rfl
+  | some r => simp [hx.2 r (hp.lt (by simp [SlotsOf.arrays, hq]))]
+
+theorem funcOffWrites_eq {h h' : Heap α} (hp : p.Below h.size) (hx : Extends h h') :
+    Impl.funcOffWrites E p h' = Spec.funcOffWrites E (contents h p) := by
+  unfold Impl.funcOffWrites Spec.funcOffWrites
+  rw [lfVal_eq E p hp hx]
+  simp only [contents, SlotsOf.map]
+  cases hq : p.dataLinearFuncDict with
+  | some r => simp [hx.2 r (hp.lt (by simp [SlotsOf.arrays, hq]))]
+  | none =>
+    cases hq2 : p.mapperOperatedDict with
+    | some r => simp [hx.2 r (hp.lt (by simp [SlotsOf.arrays, hq2]))]
+    | none => simp
+
+theorem ommFresh_good :
+    Good p (Impl.ommFresh c E p) (Spec.ommFresh c E) ∧ Fresh p (Impl.ommFresh c E p) := by
+  have := good_alloc (p := p)
+    (fun h => if c.funcOverride then E.ommOfLf (Impl.lfVal E p h) else E.ommPlain)
+    (Spec.ommFresh c E)
+    (fun h hp => by
+      unfold Spec.ommFresh
+      rw [lfVal_eq E p hp (Extends.refl h)])
+  have e : Impl.ommFresh c E p
+      = fun h => h.alloc (if c.funcOverride then E.ommOfLf (Impl.lfVal E p h) else E.ommPlain) := by
+    funext h; unfold Impl.ommFresh; split <;> rfl
+  rw [e]; exact this
+
+theorem omm_good : Good p (Impl.operatedMappingMatrix c E p) (Spec.omm c E) := by
+  have := good_slotOr (p := p) p.operatedMappingMatrix (fun s => s.operatedMappingMatrix)
+    (fun r hr => by simp [SlotsOf.arrays, hr]) (fun h => rfl) (ommFresh_good c E p).1
+  exact this.congr (fun s => rfl)
+
+theorem withDiag_good {g : Impl.Acc α} {v : Slots α → List α} (hg : Good p g v) (hf : Fresh p g) :
+    Good p (Impl.withDiag c g) (fun s => Spec.withDiag c (v s)) ∧ Fresh p (Impl.withDiag c g) := by
+  unfold Impl.withDiag Spec.withDiag
+  split
+  · exact ⟨hg, hf⟩
+  · exact good_thenWrite hg hf _ (fun _ b => addDiag c.dim c.noRegIdx c.diagValue b)
+      (fun _ _ _ _ _ => rfl)
+
+/-- `omm`-then-kernel: the shape of `data_vector` and `curvature_matrix` in the mapping formalism -/
+theorem ommThen_good (k : List α → List α) :
+    Good p (fun h => (Impl.operatedMappingMatrix c E p h).1.alloc
+        (k ((Impl.operatedMappingMatrix c E p h).1.read (Impl.operatedMappingMatrix c E p h).2)))
+      (fun s => k (Spec.omm c E s))
+    ∧ Fresh p (fun h => (Impl.operatedMappingMatrix c E p h).1.alloc
+        (k ((Impl.operatedMappingMatrix c E p h).1.read (Impl.operatedMappingMatrix c E p h).2))) :=
+  good_alloc1 (omm_good c E p) (fun _ b => k b) (fun _ b => k b) (fun _ _ _ _ _ => rfl)
+
+theorem dataVectorMapping_good :
+    Good p (Impl.dataVectorMapping c E Policy.repaired p) (Spec.dataVectorMapping c E) := by
+  intro h hp
+  have hc := (ommThen_good c E p E.dvOfOmm).1 h hp
+  unfold Impl.dataVectorMapping Spec.dataVectorMapping
+  cases hq : p.dataVectorMapper with
+  | none =>
+    have : (contents h p).dataVectorMapper = none := by simp [contents, SlotsOf.map, hq]
+    simpa [this] using hc
+  | some r =>
+    have hv : (contents h p).dataVectorMapper = some (h.read r) := by
+      simp [contents, SlotsOf.map, hq]
+    by_cases hfl : c.hasFuncList = true
+    · simpa [Policy.repaired, hfl, hv] using hc
+    · have hr : r < h.size := hp.lt (by simp [SlotsOf.arrays, hq])
+      simp only [Bool.not_eq_true] at hfl
+      simp only [Policy.repaired, hfl, Bool.and_false, Bool.false_eq_true, ↓reduceIte, hv]
+      exact ⟨Extends.refl h, hr, trivial⟩
+
+theorem curvatureMapping_good :
+    Good p (Impl.curvatureMapping c E Policy.repaired p) (Spec.curvatureMapping c E)
+    ∧ Fresh p (Impl.curvatureMapping c E Policy.repaired p) := by
+  have hk := ommThen_good c E p E.curvOfOmm
+  have hd := withDiag_good c p hk.1 hk.2
+  have := good_slotCopyOr (p := p) p.curvatureMatrix (fun s => s.curvatureMatrix) (fun h => rfl)
+    hd.1 hd.2
+  refine ⟨this.1.congr (fun s => ?_), this.2⟩
+  unfold Spec.curvatureMapping
+  cases s.curvatureMatrix <;> rfl
+
+theorem dataVectorMapperW_good :
+    Good p (Impl.dataVectorMapperW E Policy.repaired p) (fun s => s.dataVectorMapper.getD E.dvW)
+    ∧ Fresh p (Impl.dataVectorMapperW E Policy.repaired p) := by
+  have ha := good_alloc (p := p) (fun _ => E.dvW) (fun _ => E.dvW) (fun _ _ => rfl)
+  exact good_slotCopyOr (p := p) p.dataVectorMapper (fun s => s.dataVectorMapper) (fun h => rfl)
+    ha.1 ha.2
+
+theorem dataVectorW_good :
+    Good p (Impl.dataVectorW c E Policy.repaired p) (Spec.dataVectorW c E) := by
+  unfold Impl.dataVectorW
+  split
+  · rename_i hfl
+    have hm := dataVectorMapperW_good E p
+    have := (good_thenWrite hm.1 hm.2
+      (fun h b => applyWrites (E.dvFuncEntries (Impl.lfVal E p h)) b)
+      (fun s b => applyWrites (E.dvFuncEntries (Spec.lf E s)) b)
+      (fun h h' hp hx b => by rw [lfVal_eq E p hp hx])).1
+    exact this.congr (fun s => by simp [Spec.dataVectorW, hfl])
+  · rename_i hfl
+    have ha := good_alloc (p := p) (fun _ => E.dvW) (fun _ => E.dvW) (fun _ _ => rfl)
+    have := good_slotOr (p := p) p.dataVectorMapper (fun s => s.dataVectorMapper)
+      (fun r hr => by simp [SlotsOf.arrays, hr]) (fun h => rfl) ha.1
+    exact this.congr (fun s => by simp [Spec.dataVectorW, hfl])
+
+theorem mapperDiag_good :
+    Good p (Impl.mapperDiag E Policy.repaired p) (Spec.mapperDiag E)
+    ∧ Fresh p (Impl.mapperDiag E Policy.repaired p) := by
+  have ha := good_alloc (p := p) (fun h => E.diagOfWT (Impl.wtVal E p h))
+    (fun s => E.diagOfWT (Spec.wt E s))
+    (fun h hp => by rw [wtVal_eq E p hp (Extends.refl h)])
+  have := good_slotCopyOr (p := p) p.curvatureMatrixMapperDiag
+    (fun s => s.curvatureMatrixMapperDiag) (fun h => rfl) ha.1 ha.2
+  exact ⟨this.1.congr (fun s => rfl), this.2⟩
+
+theorem multiMapper_good :
+    Good p (Impl.multiMapper c E Policy.repaired p) (Spec.multiMapper c E)
+    ∧ Fresh p (Impl.multiMapper c E Policy.repaired p) := by
+  have hm := mapperDiag_good E p
+  unfold Impl.multiMapper
+  split
+  · rename_i h1
+    exact ⟨hm.1.congr (fun s => by simp [Spec.multiMapper, h1]), hm.2⟩
+  · rename_i h1
+    have := good_thenWrite hm.1 hm.2
+      (fun h b => applyWrites (E.offDiagWrites (Impl.wtVal E p h)) b)
+      (fun s b => applyWrites (E.offDiagWrites (Spec.wt E s)) b)
+      (fun h h' hp hx b => by rw [wtVal_eq E p hp hx])
+    exact ⟨this.1.congr (fun s => by simp [Spec.multiMapper, h1]), this.2⟩
+
+theorem funcListAndMapper_good :
+    Good p (Impl.funcListAndMapper c E Policy.repaired p) (Spec.funcListAndMapper c E)
+    ∧ Fresh p (Impl.funcListAndMapper c E Policy.repaired p) := by
+  have hm := multiMapper_good c E p
+  have := good_thenWrite hm.1 hm.2
+    (fun h b => applyWrites (E.funcDiagWrites (Impl.lfVal E p h))
+      (applyWrites (Impl.funcOffWrites E p h) b))
+    (fun s b => applyWrites (E.funcDiagWrites (Spec.lf E s)) (applyWrites (Spec.funcOffWrites E s) b))
+    (fun h h' hp hx b => by
+      rw [lfVal_eq E p hp hx, funcOffWrites_eq E p hp hx])
+  exact ⟨this.1.congr (fun s => rfl), this.2⟩
+
+theorem preMirror_good :
+    Good p (fun h => if c.hasFuncList then Impl.funcListAndMapper c E Policy.repaired p h
+        else if c.nMappers == 1 then Impl.mapperDiag E Policy.repaired p h
+        else Impl.multiMapper c E Policy.repaired p h) (Spec.preMirror c E) := by
+  unfold Spec.preMirror
+  by_cases h1 : c.hasFuncList = true
+  · simpa [h1] using (funcListAndMapper_good c E p).1
+  · by_cases h2 : (c.nMappers == 1) = true
+    · simpa [h1, h2] using (mapperDiag_good E p).1
+    · simpa [h1, h2] using (multiMapper_good c E p).1
+
+theorem curvatureW_good :
+    Good p (Impl.curvatureW c E Policy.repaired p) (Spec.curvatureW c E)
+    ∧ Fresh p (Impl.curvatureW c E Policy.repaired p) := by
+  have hk := good_alloc1 (preMirror_good c E p) (fun _ b => E.mirror b) (fun _ b => E.mirror b)
+    (fun _ _ _ _ _ => rfl)
+  have hd := withDiag_good c p hk.1 hk.2
+  have := good_slotCopyOr (p := p) p.curvatureMatrix (fun s => s.curvatureMatrix) (fun h => rfl)
+    hd.1 hd.2
+  refine ⟨this.1.congr (fun s => ?_), this.2⟩
+  unfold Spec.curvatureW
+  cases s.curvatureMatrix <;> rfl
+
+theorem dataVector_good (w : Bool) :
+    Good p (Impl.dataVector c E Policy.repaired w p) (Spec.dataVector c E w) := by
+  unfold Impl.dataVector Spec.dataVector
+  cases w
+  · simpa using dataVectorMapping_good c E p
+  · simpa using dataVectorW_good c E p
+
+theorem curvatureMatrix_good (w : Bool) :
+    Good p (Impl.curvatureMatrix c E Policy.repaired w p) (Spec.curvatureMatrix c E w)
+    ∧ Fresh p (Impl.curvatureMatrix c E Policy.repaired w p) := by
+  unfold Impl.curvatureMatrix Spec.curvatureMatrix
+  cases w
+  · simpa using curvatureMapping_good c E p
+  · simpa using curvatureW_good c E p
+
+theorem regularizationMatrix_good :
+    Good p (Impl.regularizationMatrix E p) (Spec.regularizationMatrix E) := by
+  have ha := good_alloc (p := p) (fun _ => E.regCompute) (fun _ => E.regCompute) (fun _ _ => rfl)
+  have := good_slotOr (p := p) p.regularizationMatrix (fun s => s.regularizationMatrix)
+    (fun r hr => by simp [SlotsOf.arrays, hr]) (fun h => rfl) ha.1
+  exact this.congr (fun s => rfl)
+
+theorem reduced_good {g : Impl.Acc α} {v : Slots α → List α} (hg : Good p g v) :
+    Good p (Impl.reduced c E g) (fun s => Spec.red c E (v s)) := by
+  unfold Impl.reduced Spec.red
+  by_cases h1 : c.allReg = true
+  · simpa [h1] using hg
+  · have := (good_alloc1 hg (fun _ b => E.reduce b) (fun _ b => E.reduce b)
+      (fun _ _ _ _ _ => rfl)).1
+    simpa [h1] using this
+
+theorem reducedVec_good {g : Impl.Acc α} {v : Slots α → List α} (hg : Good p g v) :
+    Good p (Impl.reducedVec c E g) (fun s => Spec.redVec c E (v s)) := by
+  unfold Impl.reducedVec Spec.redVec
+  by_cases h1 : c.allReg = true
+  · simpa [h1] using hg
+  · have := (good_alloc1 hg (fun _ b => E.reduceVec b) (fun _ b => E.reduceVec b)
+      (fun _ _ _ _ _ => rfl)).1
+    simpa [h1] using this
+
+theorem curvatureRegMatrix_good (w : Bool) :
+    Good p (Impl.curvatureRegMatrix c E Policy.repaired w p) (Spec.curvatureRegMatrix c E w) := by
+  have hF := curvatureMatrix_good c E p w
+  have hH := regularizationMatrix_good E p
+  unfold Impl.curvatureRegMatrix Spec.curvatureRegMatrix
+  by_cases h1 : c.hasReg = true
+  · by_cases h2 : (c.nObjs == 1) = true
+    · have := (good_write2 hF.1 hF.2 hH addBuf).1
+      simpa [h1, h2] using this
+    · have := (good_alloc2 hF.1 hH addBuf).1
+      simpa [h1, h2] using this
+  · simpa [h1] using hF.1
+
+theorem reconstruction_good (w : Bool) :
+    Good p (Impl.reconstruction c E Policy.repaired w p) (Spec.reconstruction c E w) := by
+  have := (good_alloc2 (dataVector_good c E p w) (curvatureRegMatrix_good c E p w)
+    (fun d f => E.solve f d)).1
+  unfold Impl.reconstruction Spec.reconstruction
+  exact this
+
+theorem mapped_good (w : Bool) :
+    Good p (Impl.mapped c E Policy.repaired w p) (Spec.mapped c E w) := by
+  have := (good_alloc1 (reconstruction_good c E p w)
+    (fun h b => if w then E.mappedW (Impl.lfVal E p h) b else E.mappedMapping (Impl.lfVal E p h) b)
+    (fun s b => if w then E.mappedW (Spec.lf E s) b else E.mappedMapping (Spec.lf E s) b)
+    (fun h h' hp hx b => by rw [lfVal_eq E p hp hx])).1
+  unfold Impl.mapped
+  exact this.congr (fun s => by unfold Spec.mapped; cases w <;> rfl)
+
+theorem regularizationTerm_good (w : Bool) :
+    Good p (Impl.regularizationTerm c E Policy.repaired w p)
+      (fun s => [Spec.regularizationTerm c E w s]) := by
+  unfold Impl.regularizationTerm Spec.regularizationTerm
+  by_cases h1 : c.hasReg = true
+  · have := (good_alloc2 (reducedVec_good c E p (reconstruction_good c E p w))
+      (reduced_good c E p (regularizationMatrix_good E p))
+      (fun sv hm => [E.regTerm hm sv])).1
+    simpa [h1] using this
+  · have := (good_alloc (p := p) (fun _ => [(0 : α)]) (fun _ => [(0 : α)]) (fun _ _ => rfl)).1
+    simpa [h1] using this
+
+theorem logDetCurvReg_good (w : Bool) :
+    Good p (Impl.logDetCurvReg c E Policy.repaired w p) (fun s => [Spec.logDetCurvReg c E w s]) := by
+  unfold Impl.logDetCurvReg Spec.logDetCurvReg
+  by_cases h1 : c.hasReg = true
+  · have := (good_alloc1 (reduced_good c E p (curvatureRegMatrix_good c E p w))
+      (fun _ b => [E.logDetCurvReg b]) (fun _ b => [E.logDetCurvReg b]) (fun _ _ _ _ _ => rfl)).1
+    simpa [h1] using this
+  · have := (good_alloc (p := p) (fun _ => [(0 : α)]) (fun _ => [(0 : α)]) (fun _ _ => rfl)).1
+    simpa [h1] using this
+
+theorem logDetReg_good :
+    Good p (Impl.logDetReg c E p) (fun s => [Spec.logDetReg c E s]) := by
+  unfold Impl.logDetReg Spec.logDetReg
+  by_cases h1 : c.hasReg = true
+  · cases hq : p.logDetRegularizationMatrixTerm with
+    | some v =>
+      have := (good_alloc (p := p) (fun _ => [v]) (fun _ => [v]) (fun _ _ => rfl)).1
+      have hv : ∀ h, (contents h p).logDetRegularizationMatrixTerm = some v := by
+        intro h; simp [contents, SlotsOf.map, hq]
+      intro h hp
+      have := this h hp
+      simpa [h1, hv h] using this
+    | none =>
+      have := (good_alloc1 (reduced_good c E p (regularizationMatrix_good E p))
+        (fun _ b => [E.logDetReg b]) (fun _ b => [E.logDetReg b]) (fun _ _ _ _ _ => rfl)).1
+      have hv : ∀ h, (contents h p).logDetRegularizationMatrixTerm = none := by
+        intro h; simp [contents, SlotsOf.map, hq]
+      intro h hp
+      have := this h hp
+      simpa [h1, hv h] using this
+  · have := (good_alloc (p := p) (fun _ => [(0 : α)]) (fun _ => [(0 : α)]) (fun _ _ => rfl)).1
+    simpa [h1] using this
+
+/-- every read of the repaired code returns the Spec value and leaves every older array alone -/
+theorem access_good (w : Bool) (a : Access) :
+    Good p (Impl.access c E Policy.repaired w p a) (fun s => Spec.output c E w s a) := by
+  cases a
+  · exact omm_good c E p
+  · exact dataVector_good c E p w
+  · exact (curvatureMatrix_good c E p w).1
+  · exact regularizationMatrix_good E p
+  · exact curvatureRegMatrix_good c E p w
+  · exact reconstruction_good c E p w
+  · exact mapped_good c E p w
+  · exact regularizationTerm_good c E p w
+  · exact logDetCurvReg_good c E p w
+  · exact logDetReg_good c E p
+
+end refinement
+
+/-! ## reads, one inversion, a history -/
+section runs
+set_option linter.unusedSectionVars false
+variable [Add α] [OfNat α 0]
+variable (c : Cfg α) (E : Ext α) (p : Preloads α)
+
+theorem readAll_spec (w : Bool) (accs : List Access) :
+    ∀ h : Heap α, p.Below h.size →
+      Extends h (Impl.readAll c E Policy.repaired w p accs h).1
+      ∧ (Impl.readAll c E Policy.repaired w p accs h).2
+          = accs.map (Spec.output c E w (contents h p)) := by
+  induction accs with
+  | nil => intro h _; exact ⟨Extends.refl h, rfl⟩
+  | cons a as ih =>
+    intro h hp
+    obtain ⟨x, _, r⟩ := access_good c E p w a h hp
+    obtain ⟨x2, r2⟩ := ih _ (hp.mono x.1)
+    refine ⟨x.trans x2, ?_⟩
+    simp only [Impl.readAll, List.map_cons]
+    rw [r, r2, contents_ext x hp]
+
+theorem inversion_spec (accs : List Access) (h : Heap α) (hp : p.Below h.size) :
+    Extends h (Impl.inversion c E Policy.repaired p accs h).1
+    ∧ (Impl.inversion c E Policy.repaired p accs h).2 = Spec.inversion c E (contents h p) accs := by
+  have hw : (contents h p).useWTilde = p.useWTilde := rfl
+  have hwt : Impl.wtVal E p h = Spec.wt E (contents h p) := wtVal_eq E p hp (Extends.refl h)
+  unfold Impl.inversion Spec.inversion
+  rw [hw, hwt]
+  by_cases hc : (useWTilde c p.useWTilde && !E.wtCheck (Spec.wt E (contents h p))) = true
+  · simp only [hc, ↓reduceIte]
+    exact ⟨Extends.refl h, trivial⟩
+  · obtain ⟨x, r⟩ := readAll_spec c E p (useWTilde c p.useWTilde) accs h hp
+    simp only [hc, Bool.false_eq_true, ↓reduceIte]
+    exact ⟨x, by rw [r]⟩
+
+theorem history_spec (hist : List (List Access)) :
+    ∀ h : Heap α, p.Below h.size →
+      Extends h (Impl.history c E Policy.repaired p hist h).1
+      ∧ (Impl.history c E Policy.repaired p hist h).2
+          = hist.map (Spec.inversion c E (contents h p)) := by
+  induction hist with
+  | nil => intro h _; exact ⟨Extends.refl h, rfl⟩
+  | cons accs rest ih =>
+    intro h hp
+    obtain ⟨x, r⟩ := inversion_spec c E p accs h hp
+    obtain ⟨x2, r2⟩ := ih _ (hp.mono x.1)
+    refine ⟨x.trans x2, ?_⟩
+    simp only [Impl.history, List.map_cons]
+    rw [r, r2, contents_ext x hp]
+
+end runs
+
+/-! ## slot transparency on the Spec values -/
+
+/-- every filled slot holds what the preload-free computation (formalism `w`) would compute -/
+structure Consistent [Add α] [OfNat α 0] (c : Cfg α) (E : Ext α) (w : Bool) (s : Slots α) : Prop where
+  wTilde : ∀ v, s.wTilde = some v → v = E.wtCompute
+  omm : ∀ v, s.operatedMappingMatrix = some v → v = Spec.ommFresh c E {}
+  lf : ∀ v, s.linearFuncDict = some v → v = E.lfCompute
+  dlf : ∀ v, s.dataLinearFuncDict = some v → v = E.dlfOfLf E.lfCompute
+  momd : ∀ v, s.mapperOperatedDict = some v → v = E.momdCompute
+  curv : ∀ v, s.curvatureMatrix = some v → v = Spec.curvatureMatrix c E w {}
+  dvm : ∀ v, s.dataVectorMapper = some v → v = if w then E.dvW else E.dvmMapping
+  diag : ∀ v, s.curvatureMatrixMapperDiag = some v → v = E.diagOfWT E.wtCompute
+  reg : ∀ v, s.regularizationMatrix = some v → v = E.regCompute
+  logDet : ∀ v, s.logDetRegularizationMatrixTerm = some v →
+    v = E.logDetReg (Spec.red c E E.regCompute)
+
+/-- the alternative routes to the same quantity agree (exact arithmetic; C04's business) -/
+structure Routes [Add α] [OfNat α 0] (c : Cfg α) (E : Ext α) : Prop where
+  /-- mapper×func blocks through `data_linear_func_matrix_dict` = through the convolver frames -/
+  dlf : E.funcOffViaDlf (E.dlfOfLf E.lfCompute) = E.funcOffDefault E.lfCompute
+  /-- mapper×func blocks through `mapper_operated_mapping_matrix_dict` = through the convolver frames -/
+  momd : E.funcOffViaMomd E.momdCompute E.lfCompute = E.funcOffDefault E.lfCompute
+  /-- without linear func lists the mapper data vector of the mapping formalism IS its data vector -/
+  dvm : c.hasFuncList = false → E.dvmMapping = E.dvOfOmm (Spec.ommFresh c E {})
+
+section transparency
+set_option linter.unusedSectionVars false
+variable [Add α] [OfNat α 0]
+variable {c : Cfg α} {E : Ext α} {w : Bool} {s : Slots α}
+
+theorem tr_lf (hs : Consistent c E w s) : Spec.lf E s = E.lfCompute := by
+  unfold Spec.lf
+  cases hq : s.linearFuncDict with
+  | none => rfl
+  | some v => simp [hs.lf v hq]
+
+theorem tr_wt (hs : Consistent c E w s) : Spec.wt E s = E.wtCompute := by
+  unfold Spec.wt
+  cases hq : s.wTilde with
+  | none => rfl
+  | some v => simp [hs.wTilde v hq]
+
+theorem lf_empty : Spec.lf E ({} : Slots α) = E.lfCompute := rfl
+theorem wt_empty : Spec.wt E ({} : Slots α) = E.wtCompute := rfl
+
+theorem tr_ommFresh (hs : Consistent c E w s) : Spec.ommFresh c E s = Spec.ommFresh c E {} := by
+  unfold Spec.ommFresh; rw [tr_lf hs, lf_empty]
+
+theorem tr_omm (hs : Consistent c E w s) : Spec.omm c E s = Spec.omm c E {} := by
+  unfold Spec.omm
+  cases hq : s.operatedMappingMatrix with
+  | none => simp [tr_ommFresh hs]
+  | some v => simp [hs.omm v hq]
+
+theorem tr_dataVectorMapping (hs : Consistent c E false s) (hr : Routes c E) :
+    Spec.dataVectorMapping c E s = Spec.dataVectorMapping c E {} := by
+  unfold Spec.dataVectorMapping
+  cases hq : s.dataVectorMapper with
+  | none => simp [tr_omm hs]
+  | some v =>
+    have hv := hs.dvm v hq
+    simp only [Bool.false_eq_true, ↓reduceIte] at hv
+    by_cases hfl : c.hasFuncList = true
+    · simp [hfl, tr_omm hs]
+    · simp only [Bool.not_eq_true] at hfl
+      simp only [hfl, Bool.false_eq_true, ↓reduceIte]
+      rw [hv, hr.dvm hfl]
+      rfl
+
+theorem tr_curvatureMapping (hs : Consistent c E false s) :
+    Spec.curvatureMapping c E s = Spec.curvatureMapping c E {} := by
+  cases hq : s.curvatureMatrix with
+  | none => simp [Spec.curvatureMapping, hq, tr_omm hs]
+  | some v =>
+    have := hs.curv v hq
+    simp only [Spec.curvatureMatrix, Bool.false_eq_true, ↓reduceIte] at this
+    simp [Spec.curvatureMapping, hq, this]
+
+theorem tr_dataVectorW (hs : Consistent c E true s) :
+    Spec.dataVectorW c E s = Spec.dataVectorW c E {} := by
+  unfold Spec.dataVectorW
+  rw [tr_lf hs, lf_empty]
+  cases hq : s.dataVectorMapper with
+  | none => rfl
+  | some v =>
+    have hv := hs.dvm v hq
+    simp only [↓reduceIte] at hv
+    simp [hv]
+
+theorem tr_mapperDiag (hs : Consistent c E w s) : Spec.mapperDiag E s = Spec.mapperDiag E {} := by
+  unfold Spec.mapperDiag
+  rw [tr_wt hs, wt_empty]
+  cases hq : s.curvatureMatrixMapperDiag with
+  | none => rfl
+  | some v => simp [hs.diag v hq]
+
+theorem tr_multiMapper (hs : Consistent c E w s) :
+    Spec.multiMapper c E s = Spec.multiMapper c E {} := by
+  unfold Spec.multiMapper
+  rw [tr_mapperDiag hs, tr_wt hs, wt_empty]
+
+theorem tr_funcOffWrites (hs : Consistent c E w s) (hr : Routes c E) :
+    Spec.funcOffWrites E s = Spec.funcOffWrites E {} := by
+  unfold Spec.funcOffWrites
+  rw [tr_lf hs, lf_empty]
+  cases hq : s.dataLinearFuncDict with
+  | some v => simp [hs.dlf v hq, hr.dlf]
+  | none =>
+    cases hq2 : s.mapperOperatedDict with
+    | some v => simp [hs.momd v hq2, hr.momd]
+    | none => rfl
+
+theorem tr_funcListAndMapper (hs : Consistent c E w s) (hr : Routes c E) :
+    Spec.funcListAndMapper c E s = Spec.funcListAndMapper c E {} := by
+  unfold Spec.funcListAndMapper
+  rw [tr_lf hs, lf_empty, tr_funcOffWrites hs hr, tr_multiMapper hs]
+
+theorem tr_preMirror (hs : Consistent c E w s) (hr : Routes c E) :
+    Spec.preMirror c E s = Spec.preMirror c E {} := by
+  unfold Spec.preMirror
+  rw [tr_funcListAndMapper hs hr, tr_mapperDiag hs, tr_multiMapper hs]
+
+theorem tr_curvatureW (hs : Consistent c E true s) (hr : Routes c E) :
+    Spec.curvatureW c E s = Spec.curvatureW c E {} := by
+  cases hq : s.curvatureMatrix with
+  | none => simp [Spec.curvatureW, hq, tr_preMirror hs hr]
+  | some v =>
+    have := hs.curv v hq
+    simp only [Spec.curvatureMatrix, ↓reduceIte] at this
+    simp [Spec.curvatureW, hq, this]
+
+theorem tr_dataVector (hs : Consistent c E w s) (hr : Routes c E) :
+    Spec.dataVector c E w s = Spec.dataVector c E w {} := by
+  unfold Spec.dataVector
+  cases w
+  · simp [tr_dataVectorMapping hs hr]
+  · simp [tr_dataVectorW hs]
+
+theorem tr_curvatureMatrix (hs : Consistent c E w s) (hr : Routes c E) :
+    Spec.curvatureMatrix c E w s = Spec.curvatureMatrix c E w {} := by
+  unfold Spec.curvatureMatrix
+  cases w
+  · simp [tr_curvatureMapping hs]
+  · simp [tr_curvatureW hs hr]
+
+theorem tr_regularizationMatrix (hs : Consistent c E w s) :
+    Spec.regularizationMatrix E s = Spec.regularizationMatrix E {} := by
+  unfold Spec.regularizationMatrix
+  cases hq : s.regularizationMatrix with
+  | none => rfl
+  | some v => simp [hs.reg v hq]
+
+theorem tr_curvatureRegMatrix (hs : Consistent c E w s) (hr : Routes c E) :
+    Spec.curvatureRegMatrix c E w s = Spec.curvatureRegMatrix c E w {} := by
+  unfold Spec.curvatureRegMatrix
+  rw [tr_curvatureMatrix hs hr, tr_regularizationMatrix hs]
+
+theorem tr_reconstruction (hs : Consistent c E w s) (hr : Routes c E) :
+    Spec.reconstruction c E w s = Spec.reconstruction c E w {} := by
+  unfold Spec.reconstruction
+  rw [tr_curvatureRegMatrix hs hr, tr_dataVector hs hr]
+
+theorem tr_mapped (hs : Consistent c E w s) (hr : Routes c E) :
+    Spec.mapped c E w s = Spec.mapped c E w {} := by
+  unfold Spec.mapped
+  rw [tr_reconstruction hs hr, tr_lf hs, lf_empty]
+
+theorem tr_regularizationTerm (hs : Consistent c E w s) (hr : Routes c E) :
+    Spec.regularizationTerm c E w s = Spec.regularizationTerm c E w {} := by
+  unfold Spec.regularizationTerm
+  rw [tr_reconstruction hs hr, tr_regularizationMatrix hs]
+
+theorem tr_logDetCurvReg (hs : Consistent c E w s) (hr : Routes c E) :
+    Spec.logDetCurvReg c E w s = Spec.logDetCurvReg c E w {} := by
+  unfold Spec.logDetCurvReg
+  rw [tr_curvatureRegMatrix hs hr]
+
+theorem tr_logDetReg (hs : Consistent c E w s) :
+    Spec.logDetReg c E s = Spec.logDetReg c E {} := by
+  unfold Spec.logDetReg
+  rw [tr_regularizationMatrix hs]
+  cases hq : s.logDetRegularizationMatrixTerm with
+  | none => rfl
+  | some v =>
+    have := hs.logDet v hq
+    simp [this, Spec.regularizationMatrix]
+
+theorem tr_output (hs : Consistent c E w s) (hr : Routes c E) (a : Access) :
+    Spec.output c E w s a = Spec.output c E w {} a := by
+  cases a <;> simp only [Spec.output]
+  · exact tr_omm hs
+  · exact tr_dataVector hs hr
+  · exact tr_curvatureMatrix hs hr
+  · exact tr_regularizationMatrix hs
+  · exact tr_curvatureRegMatrix hs hr
+  · exact tr_reconstruction hs hr
+  · exact tr_mapped hs hr
+  · rw [tr_regularizationTerm hs hr]
+  · rw [tr_logDetCurvReg hs hr]
+  · rw [tr_logDetReg hs]
+
+end transparency
+
+/-! ## the two formalisms -/
+
+/-- What property C04 establishes, taken here as an abstract hypothesis: on preload-free inputs the
+    w-tilde pipeline and the mapping pipeline produce the same data vector and curvature matrix, the
+    two ways of mapping a reconstruction back to the data agree, and the dataset's own w-tilde passes
+    its own noise-map check. -/
+structure FormalismsAgree [Add α] [OfNat α 0] (c : Cfg α) (E : Ext α) : Prop where
+  dataVector : Spec.dataVectorW c E {} = Spec.dataVectorMapping c E {}
+  curvature : Spec.curvatureW c E {} = Spec.curvatureMapping c E {}
+  mapped : ∀ l s, E.mappedW l s = E.mappedMapping l s
+  check : E.wtCheck E.wtCompute = true
+
+section formalism
+set_option linter.unusedSectionVars false
+variable [Add α] [OfNat α 0]
+variable {c : Cfg α} {E : Ext α}
+
+theorem fa_output (hA : FormalismsAgree c E) (a : Access) :
+    Spec.output c E true {} a = Spec.output c E false {} a := by
+  have hD : Spec.dataVector c E true {} = Spec.dataVector c E false {} := by
+    simp [Spec.dataVector, hA.dataVector]
+  have hF : Spec.curvatureMatrix c E true {} = Spec.curvatureMatrix c E false {} := by
+    simp [Spec.curvatureMatrix, hA.curvature]
+  have hFH : Spec.curvatureRegMatrix c E true {} = Spec.curvatureRegMatrix c E false {} := by
+    simp [Spec.curvatureRegMatrix, hF]
+  have hS : Spec.reconstruction c E true {} = Spec.reconstruction c E false {} := by
+    simp [Spec.reconstruction, hFH, hD]
+  cases a <;> simp only [Spec.output]
+  · exact hD
+  · exact hF
+  · exact hFH
+  · exact hS
+  · simp [Spec.mapped, hS, hA.mapped]
+  · simp [Spec.regularizationTerm, hS]
+  · simp [Spec.logDetCurvReg, hFH]
+
+/-- the cfg with another `settings.use_w_tilde`; nothing but the factory reads that flag -/
+theorem output_settings_irrelevant (b w : Bool) (s : Slots α) (a : Access) :
+    Spec.output { c with settingsUseWTilde := b } E w s a = Spec.output c E w s a := by
+  cases a <;> rfl
+
+theorem belowEmpty (u : Option Bool) (n : Nat) :
+    Preloads.Below ({ useWTilde := u } : Preloads α) n := by
+  simp [Preloads.Below, SlotsOf.arrays]
+
+theorem contentsEmpty (u : Option Bool) (h : Heap α) :
+    contents h ({ useWTilde := u } : Preloads α) = { useWTilde := u } := rfl
+
+theorem wt_flag (u : Option Bool) : Spec.wt E ({ useWTilde := u } : Slots α) = E.wtCompute := rfl
+
+theorem output_flag (u : Option Bool) (w : Bool) (a : Access) :
+    Spec.output c E w ({ useWTilde := u } : Slots α) a = Spec.output c E w {} a := by
+  cases a <;> rfl
+
+/-- `Spec.inversion` of consistent slots = `Spec.inversion` of no arrays, same `use_w_tilde` flag -/
+theorem tr_inversion {s : Slots α} (hs : Consistent c E (useWTilde c s.useWTilde) s)
+    (hr : Routes c E) (accs : List Access) :
+    Spec.inversion c E s accs = Spec.inversion c E { useWTilde := s.useWTilde } accs := by
+  unfold Spec.inversion
+  simp only []
+  rw [tr_wt hs, wt_flag]
+  split
+  · rfl
+  · congr 1
+    apply List.map_congr_left
+    intro a _
+    rw [tr_output hs hr a, ← output_flag (c := c) (E := E) s.useWTilde]
+
+/-- with `FormalismsAgree`, the `use_w_tilde` flag of the Preloads object changes nothing either -/
+theorem fa_inversion (hA : FormalismsAgree c E) (u : Option Bool) (accs : List Access) :
+    Spec.inversion c E ({ useWTilde := u } : Slots α) accs = Spec.inversion c E {} accs := by
+  unfold Spec.inversion
+  simp only [wt_flag, hA.check, Bool.not_true, Bool.and_false, Bool.false_eq_true,
+    ↓reduceIte]
+  congr 1
+  apply List.map_congr_left
+  intro a _
+  rw [output_flag]
+  cases h1 : useWTilde c u <;> cases h2 : useWTilde c (none : Option Bool)
+  · rfl
+  · exact (fa_output hA a).symm
+  · exact fa_output hA a
+  · rfl
+
+end formalism
 
 end Model.Preload
